@@ -214,12 +214,13 @@ func execEngineCaseTimeout(caseID string, wf *AWf, text string, beh map[string]B
 
 func cmdEngine(args []string) int {
 	var cancelMode string
-	var hang, evalFail, allTags bool
+	var hang, evalFail, allTags, multiRef bool
 	c, _ := parseCommon("engine", args, func(fs *flag.FlagSet) {
 		fs.StringVar(&cancelMode, "cancel", "none", "none|random: cancel the context at a random instant")
 		fs.BoolVar(&hang, "hang", false, "allow never-finishing steps")
 		fs.BoolVar(&evalFail, "evalfail", false, "generate expressions that may fail to evaluate at run time")
 		fs.BoolVar(&allTags, "tags", false, "every workflow uses the optional / one-of / or-disabled tags")
+		fs.BoolVar(&multiRef, "multiref", false, "expressions with several step references / several optional members on one source")
 	})
 	w := openOut(c.out)
 	defer w.close()
@@ -231,7 +232,7 @@ func cmdEngine(args []string) int {
 		}
 		w.emit(map[string]any{"kind": "begin", "index": i})
 		g := genOpts{maxSteps: 3 + cr.intn(4), tags: cr.chance(1, 2), failOutputs: true, enabled: cr.chance(1, 2),
-			stopIf: cr.chance(1, 4), waitFor: cr.chance(1, 2), evalFail: evalFail}
+			stopIf: cr.chance(1, 4), waitFor: cr.chance(1, 2), evalFail: evalFail, multiRef: multiRef}
 		if c.tier == "thorough" {
 			g.maxSteps = 3 + cr.intn(10)
 		}
